@@ -414,3 +414,52 @@ func VerifC01File(kind string, leaf int, boxTree bool) {
 	vfy.Assert(err == nil, "file: second encode succeeds")
 	vfy.Assert(bytes.Equal(out, out2), "file: second encode gives identical bytes")
 }
+
+// VerifC04File: whole files in which one leaf box has untrusted (fully symbolic) content are
+// decoded by every decode path and decode mode, inspected and re-encoded under the panic, step
+// and allocation monitors: cross-box logic (File.AddChild, moov/trak/stbl accessors, fragment
+// grouping, Info of the whole tree) must survive whatever the leaf says.
+// mode: 0 DecodeFile, 1 DecodeFileSR, 2 DecodeFile lazy mdat, 3 DecodeFile with DecISMFlag,
+// 4 DecodeFile with DecStartOnMoof.
+func VerifC04File(kind string, leaf int, mode int) {
+	in, _, _ := fileWithSymbolicLeaf(kind, leaf)
+	if in == nil {
+		return
+	}
+	vfy.InputLen(len(in))
+	var f *File
+	var err error
+	switch mode {
+	case 0:
+		f, err = DecodeFile(bytes.NewReader(in))
+	case 1:
+		f, err = DecodeFileSR(bits.NewFixedSliceReader(in))
+	case 2:
+		f, err = DecodeFile(bytes.NewReader(in), WithDecodeMode(DecModeLazyMdat))
+	case 3:
+		f, err = DecodeFile(bytes.NewReader(in), WithDecodeFlags(DecISMFlag))
+	default:
+		f, err = DecodeFile(bytes.NewReader(in), WithDecodeFlags(DecStartOnMoof))
+	}
+	vfy.Cover("returned")
+	if err != nil {
+		return
+	}
+	vfy.Cover("file decoded")
+	var ib bytes.Buffer
+	_ = f.Info(&ib, "all:1", "", "  ")
+	if mode != 2 {
+		var ob bytes.Buffer
+		_ = f.Encode(&ob)
+		sw := bits.NewFixedSliceWriter(len(in) + 64)
+		_ = f.EncodeSW(sw)
+	}
+	// (accessors such as GetFullSamples are not part of the property's statement: decode, Info
+	// and re-encoding only)
+	if mode != 2 {
+		f.FragEncMode = EncModeBoxTree
+		var tb bytes.Buffer
+		_ = f.Encode(&tb)
+	}
+	vfy.Cover("file inspected")
+}
